@@ -14,13 +14,14 @@ FUNCTIONS = ["peltool.main", "peltool.processId", "peltool.parsePelFromPLID", "p
              "peltool.parsePelFromID", "peltool.parsePelFromSRCID", "peltool.parsePELSummary", "peltool.considerPEL",
              "PrivateHeader.toJSON (id formatting)"]
 HARNESSES = [
-    {"fn": "h_plid", "cases": ["", "0x", "0X"], "timeout": {"quick": 90, "thorough": 300}},
+    {"fn": "h_plid", "cases": ["", "0x", "0X", "0x:nosrc"], "timeout": {"quick": 90, "thorough": 300}},
     {"fn": "h_bmc", "cases": ["%s:d%d" % (o, d) for o in ("first", "second", "junkfirst") for d in range(1, 11)],
      "quick_cases": ["first:d1", "second:d1", "first:d10", "junkfirst:d4"], "timeout": {"quick": 150, "thorough": 400},
      "per_path_timeout": 120},     # (z3 needs up to ~30 s for one 10-digit decimal query; the default per-query limit is 15 s)
     {"fn": "h_id", "cases": ["", "0x"], "timeout": {"quick": 90, "thorough": 300}},
     {"fn": "h_src", "cases": ["q2", "q3", "q0:long"], "quick_cases": ["q2"], "timeout": {"quick": 90, "thorough": 300}},
     {"fn": "h_src_exclude", "cases": ["c10"], "timeout": {"quick": 90, "thorough": 300}},
+    {"fn": "h_src_exclude_lines", "cases": ["fwd", "rev"], "timeout": {"quick": 90, "thorough": 300}},
 ]
 BOUNDS = {"plid / id": "stored and queried ids symbolic over all 32-bit values; 3 prefix spellings x symbolic digit case",
           "bmc id": "stored id symbolic over 0..2^32-1, queried id symbolic per decimal digit count 1..10, queried in decimal",
@@ -64,9 +65,10 @@ def h_plid() -> bool:
     p = sym_int("p", 0, 0xFFFFFFFF)
     q = sym_int("q", 0, 0xFFFFFFFF)
     lower = sym_bool("lower")
-    A = pb.PEL(pb.SRC(), ph=dict(eid=0x50000001, plid=p), uh=dict(flags=flagsA()))
-    B = pb.PEL(pb.SRC(), ph=dict(eid=0x50000002, plid=0x50000009))
-    query = mkstr([ord(c) for c in CASE] + hex8(q, lower))
+    nosrc = CASE.endswith(":nosrc")                # logs without any SRC section (Private + User Header only)
+    A = pb.PEL(*([] if nosrc else [pb.SRC()]), ph=dict(eid=0x50000001, plid=p), uh=dict(flags=flagsA()))
+    B = pb.PEL(*([pb.UD(b"\x01", comp=0x4321)] if nosrc else [pb.SRC()]), ph=dict(eid=0x50000002, plid=0x50000009))
+    query = mkstr([ord(c) for c in CASE.split(":")[0]] + hex8(q, lower))
     w = World(files=[("a_50000001", A), ("b_50000002", B)])
     ns = Namespace(**dict(ARG_DEFAULTS, path="/pels", skip_plugins=True, plID=query))
     try:
@@ -218,3 +220,27 @@ def h_src_exclude() -> bool:
         conds.append(("0x50000001" in keys) == (not bool(exA)))
         conds.append(("0x50000002" in keys) == (not bool(exB)))
     return verdict(sym_all(conds), obs={"docs": [x.obj for x in d]})
+
+
+def h_src_exclude_lines() -> bool:
+    """
+    post: _
+    """
+    # an exclusion file with several reference codes, the logs in any order: every listed code is excluded
+    codes = ["BD8D1002", "BD8D1003", "11002030"]
+    inc = [bool(sym_bool("in%d" % i)) for i in range(3)]
+    content = "".join(c + "\n" for c, k in zip(codes, inc) if k)
+    files = [("%s_5000000%d" % ("cba"[i] if CASE == "rev" else "abc"[i], i + 1),
+              pb.PEL(pb.SRC(ascii=codes[i].encode()), ph=dict(eid=0x50000001 + i))) for i in range(3)]
+    w = World(files=files, extra={"/etc/excl": content})
+    ns = Namespace(**dict(ARG_DEFAULTS, path="/pels", skip_plugins=True, src_exclude_file="/etc/excl", reverse=bool(sym_bool("reverse"))))
+    try:
+        status = run_main(peltool, w, ns)
+    except Exception as e:
+        return verdict(False, obs={"exception": repr(e)})
+    d = docs_of(w)
+    conds = [status == 0, len(d) == 1]
+    if len(d) == 1:
+        keys = set(d[0].obj.keys())
+        conds.append(keys == {"0x5000000%d" % (i + 1) for i in range(3) if not inc[i]})
+    return verdict(sym_all(conds), obs={"docs": [list(x.obj.keys()) for x in d]})
